@@ -15,6 +15,31 @@ HOOK_COMMITS = ["0629e56", "a0e4ab0"]
 NOT_YET = {}
 
 PROPS = {
+    "C01": {
+        "suites": [
+            {"name": "final", "quick": 800, "thorough": 20000},
+            # whole-system scenes through the public API with always-on monitors (panic hook, watchdog,
+            # counting allocator, sample range): implementation-only (no twin) — these are tests that
+            # support the theorems and hunt for failing inputs; a panic/hang on a `cb` op is a failure
+            {"name": "system", "quick": 250, "thorough": 6000, "impl_only": True, "fault_ops": ["cb", "rate"]},
+        ],
+        "level_text": "Lean theorems: the renderer's final stage writes, for ANY bus value, samples in [-1,1], the mean of "
+                      "left/right with one channel, exact zeros on channels beyond the second, exactly channels*frames samples, "
+                      "and a callback is cut into chunks of 1..internal_buffer_size frames that cover it exactly; the final "
+                      "stage model runs as a Float twin bit-exact against kira through the public API. Termination of the "
+                      "audio-path loops, absence of queue-full panics and definedness of the effects are proved under the "
+                      "owning properties (C04, C05, C08, C13). The part of C01 no model can exhibit (heap allocation, wall-clock "
+                      "promptness, NaN/overflow of IEEE arithmetic in arbitrary scenes) is monitored on the real code by the "
+                      "implementation-only suite `system` (panic hook, per-op watchdog, counting allocator, range check)",
+        "level_note": "PARTIAL: theorems cover the final stage and chunking; whole-graph definedness is by component theorems plus "
+                      "monitoring; allocation, timing and float overflow are observable only on the real code (tests, not proofs). "
+                      "Known findings (finite arguments that hang / panic / emit NaN) are listed in known_findings.json",
+        "assumptions": [
+            "sample rate >= 1, 1..8 channels, internal buffer size >= 1 (backend configuration preconditions)",
+            "the system generator draws finite arguments from documented ranges plus boundary values; inputs of recorded "
+            "known findings are kept in corpus/system/ and excluded from random generation (each would cost a watchdog timeout)",
+        ],
+    },
     "C06": {
         "suites": [{"name": "param", "quick": 1500, "thorough": 60000}],
         "level_text": "Lean theorems about the model of parameter.rs over the reals: closed form "
